@@ -2,7 +2,7 @@
 (constraint_mode, most-derived blocks, per-instance state), C08 (object hierarchy) and C03 (histories of toggles and edits).
 Every expectation is made deterministic by pinning constraints, so no statistics are involved."""
 import itertools
-from pyvc.contract import contract
+from pyvc.contract import contract, library_only
 
 
 def _vals(o, names):
@@ -105,6 +105,7 @@ def c_inline_dynamic(c, kind, ninst, order):
                 ok, e = _solves(lambda: _rw(g, lambda it: it.l[0] > 100))
                 c.check("C06: unreferenced, the dynamic constraint restricts nothing", ok)
         except Exception as e:
+            library_only(e)
             c.check("C06: a dynamic constraint with a foreach body raises nothing", False, info="%s: %s" % (type(e).__name__, e))
         return
     if kind == "dynamic_forward_ref":
@@ -126,7 +127,7 @@ def c_inline_dynamic(c, kind, ninst, order):
             def d_pin(self):
                 self.a == self.k
         try:
-            objs = [F(10 * (i + 1)) for i in range(n)]
+            objs = [F(10 * (i + 1)) for i in range(ninst)]
             for o in objs:
                 o.on = 1
             for call in range(3):
@@ -136,6 +137,7 @@ def c_inline_dynamic(c, kind, ninst, order):
                 c.check("C06: a dynamic constraint referenced from a class constraint of the same object constrains that object's "
                         "fields, whatever the order in which the blocks are elaborated", all(a == k for a, k in got), info=repr(got))
         except Exception as e:
+            library_only(e)
             c.check("C06: a dynamic constraint referenced from a class constraint of the same object constrains that object's "
                     "fields, whatever the order in which the blocks are elaborated", False, info="%s: %s" % (type(e).__name__, e))
         return
@@ -181,6 +183,7 @@ def c_inline_dynamic(c, kind, ninst, order):
                 c.check("C06: after the list was refilled the reference constrains the new element 1", got[1][0] == got[1][1] == 6,
                         info=repr(got))
         except Exception as e:
+            library_only(e)
             c.check("C06: a dynamic constraint referenced through list[sel] in a class constraint constrains the element "
                     "selected at the time of the call, call after call", False, info="%s: %s" % (type(e).__name__, e))
         return
@@ -242,6 +245,7 @@ def c_inline_dynamic(c, kind, ninst, order):
                     "other instances exist", int(o.b) == 3, info="b=%d (k=3), others k=%r" % (int(o.b), [int(x.k) for x in others]))
             c.check("C06: other instances are not touched by the call", all(int(x.k) == 10 + i for i, x in enumerate(others)))
         except Exception as e:
+            library_only(e)
             c.check("C06: a dynamic constraint constrains the fields of the object through which it was referenced, however many "
                     "other instances exist", False, info="%s: %s" % (type(e).__name__, e))
         for i, other in enumerate(others):
@@ -250,6 +254,7 @@ def c_inline_dynamic(c, kind, ninst, order):
                     it.d_k()
                 c.check("C06: ... also for the instances created %s" % order, int(other.b) == 10 + i)
             except Exception as e:
+                library_only(e)
                 c.check("C06: ... also for the instances created %s" % order, False, info="%s: %s" % (type(e).__name__, e))
     else:
         @vsc.randobj
@@ -270,6 +275,7 @@ def c_inline_dynamic(c, kind, ninst, order):
             h.randomize()
             c.check("C06: class constraints of list elements still hold afterwards", all(9 <= int(x.a) <= 12 for x in h.items))
         except Exception as e:
+            library_only(e)
             c.check("C06: a dynamic constraint referenced through list element j constrains exactly that element", False,
                     info="%s: %s" % (type(e).__name__, e))
         try:
@@ -280,6 +286,7 @@ def c_inline_dynamic(c, kind, ninst, order):
             c.check("C06: a dynamic constraint referenced through a foreach index constrains every element", all(b == k for b, k in got),
                     info=repr(got))
         except Exception as e:
+            library_only(e)
             c.check("C06: a dynamic constraint referenced through a foreach index constrains every element", False,
                     info="%s: %s" % (type(e).__name__, e))
 
@@ -377,6 +384,7 @@ def c_constraint_mode_ctor(c, order, where):
             if root is not None or i == 0:
                 c.check("C07: the remaining block (b > a) is enforced on every instance", int(o.b) > int(o.a), info=repr((int(o.a), int(o.b))))
     except Exception as e:
+        library_only(e)
         c.check("C07: constructor-time toggles raise nothing", False, info="%s: %s" % (type(e).__name__, e))
 
 
@@ -623,6 +631,7 @@ def c_hierarchy(c, shape):
             c.check("C08: list[i].field denotes the field of that name of the element at index i, also when the element is of a "
                     "derived class", ok, info=repr([int(x.z) for x in o.items]))
         except Exception as e:
+            library_only(e)
             c.check("C08: list[i].field denotes the field of that name of the element at index i, also when the element is of a "
                     "derived class", False, info="%s: %s" % (type(e).__name__, e))
     elif shape == "obj_list":
